@@ -9,6 +9,8 @@ import (
 	"fmt"
 	"os"
 	"path/filepath"
+	"runtime/debug"
+	"runtime/pprof"
 	"strconv"
 	"strings"
 	"time"
@@ -44,9 +46,18 @@ func main() {
 	qlog := flag.String("query-log", "", "log solver queries to file")
 	params := flag.String("param", "", "name=value,... : concrete harness parameters (bounds)")
 	skipKnown := flag.String("skip-known", "", "comma-separated known-finding ids whose input regions are skipped")
+	cpuprof := flag.String("cpuprofile", "", "write a CPU profile of the engine")
 	maxViol := flag.Int("max-violations", 1, "stop after this many violations")
 	flag.Parse()
 
+	// the interpreter allocates a lot of short-lived boxed values: trade memory for fewer collections
+	debug.SetGCPercent(600)
+	debug.SetMemoryLimit(3 << 30)
+	if *cpuprof != "" {
+		f, _ := os.Create(*cpuprof)
+		pprof.StartCPUProfile(f)
+		defer pprof.StopCPUProfile()
+	}
 	if *harness == "" {
 		fmt.Fprintln(os.Stderr, "zsx: -harness required")
 		os.Exit(2)
